@@ -13,13 +13,20 @@ META = dict(
               "on a line-by-line model of state.py; the model's executable step function is run inside Coq (vm_compute) on the "
               "same operation histories as the real State and compared result by result; from-scratch oracle on the implementation; "
               "the fork rule of State.__setitem__ and the combination rule of State.revert(subset) are recognised on every run (source "
-              "shape + probes on a real State, fail closed) and select the executable instance of the tie",
+              "shape + probes on a real State, fail closed) and select the executable instance of the tie; scoped fork-mode switches "
+              "(`with state.auto_fork(m)`, also left by an exception) are a derived form of the model (State/StateScoped.v: set mode, body up to "
+              "the first error, previous mode always put back) to which the theorems are lifted, executed through the real context manager and "
+              "compared event by event (results + auto_fork_type + _last_fork inside and after every block), plus an implementation-side oracle "
+              "against the documented scoping written out",
     level_text="For every value type, every well-formed graph, every history of get/set/put/revert/partial revert/clone/mode "
                "switch/precompute/clear on any number of states: a successful read is the from-scratch evaluation of the current "
                "independent values, a read fails (input error) iff that evaluation needs an unset independent value, reads are "
                "transparent, states do not interfere. Proved in full for the code as it is (since 27ac519 an assignment made with "
                "auto-fork off drops the pending fork): the only hypothesis on a history is the documented precondition of "
-               "per-individual reverts, and none at all for histories of full reverts.",
+               "per-individual reverts, and none at all for histories of full reverts. The same for histories with scoped mode switches "
+               "`with state.auto_fork(m): ...` nested in any way and left by exceptions caught by the caller: every read executed anywhere "
+               "(inside a block, after a failed block) is the from-scratch value, the block always puts the previous mode back, such a history "
+               "reaches the store of a plain history (its flattening) and C02's later-history simulation holds for it.",
     level_note="Trusted: Coq kernel (no axioms: all theorems closed under the global context); the hand-written model's tie is the "
                "executed correspondence (toy graphs built as real LinkedVariables), not a translation; graph well-formedness is a "
                "hypothesis of the generic theorems, PROVED from C15's theorems for every graph built by the modelled DAG constructor "
@@ -43,6 +50,9 @@ OBLIGATIONS = [
     "C01_never_stale_full_reverts_nomix", "C01_scratch_is_by_name", "C01_read_by_name_built",
     "C01_read_by_name_full_reverts_built", "C01_never_stale_opkinds_built", "C01_compose_examples",
     "C01_reads_are_C07_eval", "C01_reads_row_local", "C01_reads_eval_example",
+    # histories with scoped fork-mode switches, `with state.auto_fork(m): ...` (State/StateScoped.v)
+    "C01_never_stale_scoped", "C01_scoped_reads_are_scratch", "C01_scoped_is_history", "C01_scoped_restores_mode",
+    "C01_scoped_later_history", "C01_scoped_examples",
 ]
 
 # The model variant the theorems of Props/C01.v are about (State/StateNow.v): True = State.__setitem__ as it is since 27ac519
@@ -67,6 +77,21 @@ def checker():
 HEADER = ("From Coq Require Import ZArith List Bool.\nFrom Leaspy Require Import State.StateModel State.StateExec.\n"
           "Import ListNotations.\nOpen Scope Z_scope.\nOpen Scope nat_scope.\n")
 CASE_TYPE = "list nspec * list (xop * out xval * bool)"
+# histories with scoped blocks / looks: the trace of State/StateScoped.v compared entry by entry (StateScopedExec.check_scase_with)
+SHEADER = ("From Coq Require Import ZArith List Bool.\nFrom Leaspy Require Import State.StateModel State.StateExec State.StateScoped "
+           "State.StateScopedExec.\nImport ListNotations.\nOpen Scope Z_scope.\nOpen Scope nat_scope.\n")
+SCASE_TYPE = "list nspec * list xsop * list (xobs * bool)"
+SCOPE_SIG = "auto-fork-scope:mode-not-restored"
+SCOPE_DIFF_SIG = "auto-fork-scope:differs-from-documented-scoping"
+ALIAS_SIG = "clone:shares-storage-with-source"
+
+
+def schecker():
+    return f"(check_scase_with {SEM[MIX]} {'true' if FX else 'false'})"
+
+
+def is_scoped(s):
+    return any(op[0] in ("scoped", "look") for op, _, _ in s.records)
 
 F1_SIG = "fork-mode-switch-stale-revert"
 
@@ -143,8 +168,26 @@ def classify(run: Run, G, sess, what_prefix=""):
 
 
 def correspond(run: Run, name, sessions, metas):
-    cases = [s.coq_case() for s in sessions]
-    bad = run.vm_bad_indices(name, HEADER, CASE_TYPE, cases, checker(), shard=150)
+    """plain histories through `check_case_with`, histories with scoped blocks / looks through `check_scase_with`"""
+    plain = [i for i, s in enumerate(sessions) if not is_scoped(s)]
+    scoped = [i for i, s in enumerate(sessions) if is_scoped(s)]
+    bad = []
+    if plain:
+        b = _correspond(run, name, [sessions[i] for i in plain], [metas[i] for i in plain], False)
+        bad += [plain[j] for j in (b or [])]
+    if scoped:
+        b = _correspond(run, name + "_scoped", [sessions[i] for i in scoped], [metas[i] for i in scoped], True)
+        bad += [scoped[j] for j in (b or [])]
+    return sorted(bad)
+
+
+def _correspond(run: Run, name, sessions, metas, scoped):
+    if scoped:
+        cases = [s.coq_scase() for s in sessions]
+        bad = run.vm_bad_indices(name, SHEADER, SCASE_TYPE, cases, schecker(), shard=150)
+    else:
+        cases = [s.coq_case() for s in sessions]
+        bad = run.vm_bad_indices(name, HEADER, CASE_TYPE, cases, checker(), shard=150)
     # localise the first disagreeing operation on the shortest disagreeing histories only (each bisection step is a coqc call)
     todo = sorted(bad or [], key=lambda i: len(sessions[i].records))
     if len(todo) > 6:
@@ -158,7 +201,10 @@ def correspond(run: Run, name, sessions, metas):
 
         def prefix_bad(n):
             s2 = T.run_ops(G, ops[:n], fx=FX, oracle=False)
-            r = run.vm_bad_indices(name + "_loc", HEADER, CASE_TYPE, [s2.coq_case()], checker())
+            if scoped:
+                r = run.vm_bad_indices(name + "_loc", SHEADER, SCASE_TYPE, [s2.coq_scase()], schecker())
+            else:
+                r = run.vm_bad_indices(name + "_loc", HEADER, CASE_TYPE, [s2.coq_case()], checker())
             return bool(r)
         while lo < hi:
             mid = (lo + hi) // 2
@@ -168,7 +214,8 @@ def correspond(run: Run, name, sessions, metas):
                 lo = mid + 1
         op, out, ok = s.records[lo - 1]
         run.fail(f"model-vs-code:{op[0]}", "the State implementation and the Coq model of state.py disagree on the result of an operation "
-                 "(or on the cache contents / the discipline flag): the theorems no longer speak about this code",
+                 "(or on the cache contents / the discipline flag" + (" / auto_fork_type and _last_fork observed inside and after a "
+                 "`with state.auto_fork(..)` block" if scoped else "") + "): the theorems no longer speak about this code",
                  dict(graph=G.to_json(), ops=ops[:lo], **metas[i]), expected="result computed by the model (see coq/tmp)",
                  observed=dict(op=op, out=out, disciplined=ok), kind="broken-correspondence")
     return bad
@@ -186,7 +233,7 @@ def count_f1_shape(run: Run, s, acc):
         acc["histories_with_read_after_that_revert"] += 1
     for e in s.f1_events:
         if e["kind"] == "revert-after":
-            op = s.records[e["step"]][0][0]
+            op = e["op"]
             out = e["out"]
             key = f"{op} -> " + (out[0] if out[0] != "err" else "err:" + out[1])
             acc["revert_outcomes"][key] = acc["revert_outcomes"].get(key, 0) + 1
@@ -195,10 +242,167 @@ def count_f1_shape(run: Run, s, acc):
             acc["reads_after_that_revert"] += 1
 
 
+def new_sc():
+    return dict(histories_with_blocks=0, blocks=0, blocks_left_by_an_exception=0, nested_blocks=0,
+                blocks_entered_with_a_fork_pending=0, reverts_after_a_block_left_by_an_exception=0, reads_after_those_reverts=0,
+                blocks_whose_previous_mode_is_not_REF=0)
+
+
+def directed_scoped(run: Run):
+    """The shape of the seeded defect "auto_fork without try/finally", on c = a + b, for every previous mode, every mode of the block
+    and every way the body can raise: a fork is pending; `with auto_fork(m)`: read, <raises>, (skipped assignment); look; b = 20;
+    read c; revert(); read c, a, b.  Plus the two histories proved in Coq (State/StateScopedExecProofs.v: sc_ops, nested_ops)."""
+    G = T.F1_GRAPH
+    G.build()
+    raisers = {"unknown name": [["get", 0, T.UNKNOWN]], "non-settable assignment": [["set", 0, "c", 5]],
+               "read needing an unset variable": [["set", 0, "a", None], ["get", 0, "c"]],
+               "revert without fork": [["mode", 0, None], ["set", 0, "b", 3], ["revert", 0]],
+               "index error (crash class)": [["put", 0, "a", 5, 1, True]], "no exception": []}
+    sessions, metas = [], []
+    sc = new_sc()
+    for prev in ("REF", "COPY", None):
+        for bm in (None, "REF", "COPY"):
+            for rname, rops in raisers.items():
+                ops = [["mode", 0, prev], ["set", 0, "a", 1], ["set", 0, "b", 10], ["get", 0, "c"], ["set", 0, "a", 2],
+                       ["scoped", 0, bm, [["get", 0, "c"]] + rops + [["set", 0, "b", 99]]], ["look", 0],
+                       ["set", 0, "b", 20], ["get", 0, "c"], ["revert", 0], ["get", 0, "c"], ["get", 0, "a"], ["get", 0, "b"]]
+                s = T.run_ops(G, ops, fx=FX)
+                run.case(("directed-scoped", prev, bm, rname), nontrivial=True)
+                run.count("directed_scoped_block", rname)
+                classify(run, G, s)
+                scoped_oracle(run, G, s, sc)
+                sessions.append(s)
+                metas.append(dict(stream="directed-scoped", case=len(sessions), previous_mode=prev, block_mode=bm, raises=rname))
+    nested = [["mode", 0, "REF"], ["set", 0, "a", 1], ["set", 0, "b", 10], ["clone", 0, False, True],
+              ["scoped", 0, "COPY", [["scoped", 1, None, [["set", 1, "a", 7], ["get", 1, T.UNKNOWN], ["set", 1, "a", 8]]], ["set", 0, "a", 3]]],
+              ["look", 0], ["look", 1], ["get", 1, "c"], ["get", 0, "c"], ["revert", 1]]
+    s = T.run_ops(G, nested, fx=FX)
+    run.case(("directed-scoped", "nested"), nontrivial=True)
+    classify(run, G, s)
+    scoped_oracle(run, G, s, sc)
+    sessions.append(s)
+    metas.append(dict(stream="directed-scoped-nested", case=len(sessions)))
+    run.extra["directed_scoped_histories"] = sc
+    correspond(run, "dscoped", sessions, metas)
+    s0 = sessions[0]
+    run.sample(dict(kind="exception leaving `with state.auto_fork(None)` while a fork is pending (real State)", ops=[r[0] for r in s0.records],
+                    trace=s0.events_json()))
+
+
+def scoped_oracle(run: Run, G, s, sc):
+    """Implementation-side oracles for `with state.auto_fork(m)` blocks (no Coq involved):
+    (1) after a block — left normally or by an exception — `auto_fork_type` is what it was before the block (white box);
+    (2) the whole history gives, event by event (results, reads, reverts accepted or refused, auto_fork_type, _last_fork), what it
+        gives when every block is executed by the documented contract written out (set the mode; finally: put the previous one back);
+    (3) a clone shares no dictionary and no tensor object with its source."""
+    ops = [r[0] for r in s.records]
+    if s.alias_violations:
+        a = s.alias_violations[0]
+        prefix = ops[: a["step"] + 1]
+        small = T.shrink(G, prefix, lambda c: bool(T.run_ops(G, c, fx=FX, oracle=False).alias_violations))
+        a2 = T.run_ops(G, small, fx=FX, oracle=False).alias_violations[0]
+        run.count("oracle", ALIAS_SIG)
+        run.fail(ALIAS_SIG, "State.clone returns a state that shares mutable storage with its source (the model's states are values: "
+                 "C01_clone_isolated does not transfer to states that alias each other)",
+                 dict(graph=G.to_json(), ops=small), expected="no shared dictionary / tensor object", observed=a2["shared"],
+                 kind="broken-correspondence")
+    if not s.has_scoped:
+        return
+    sc["histories_with_blocks"] += 1
+    pending_exc, reverted = set(), set()
+
+    def walk(records, depth):
+        for op, out, ok in records:
+            if op[0] == "scoped":
+                sc["blocks"] += 1
+                sc["nested_blocks"] += depth > 0
+                if out[1]:
+                    sc["blocks_left_by_an_exception"] += 1
+                    if depth == 0 and op[1] < len(s.states):
+                        pending_exc.add(op[1])
+                walk(out[2], depth + 1)
+            elif depth == 0 and op[0] in ("revert", "revmask") and op[1] in pending_exc:
+                sc["reverts_after_a_block_left_by_an_exception"] += 1
+                pending_exc.discard(op[1])
+                reverted.add(op[1])
+            elif depth == 0 and op[0] == "get" and op[1] in reverted:
+                sc["reads_after_those_reverts"] += 1
+    walk(s.records, 0)
+    # on entry of each block: was a fork pending, and what was the mode before the block
+    for b in s.block_entries:
+        sc["blocks_entered_with_a_fork_pending"] += b["fork_pending"]
+        sc["blocks_whose_previous_mode_is_not_REF"] += b["previous"] != "REF"
+    if s.scope_violations:
+        v = s.scope_violations[0]
+        prefix = ops[: v["step"] + 1]
+        small = T.shrink(G, prefix, lambda c: bool(T.run_ops(G, c, fx=FX, oracle=False).scope_violations))
+        v2 = T.run_ops(G, small, fx=FX, oracle=False).scope_violations[0]
+        run.count("oracle", SCOPE_SIG)
+        run.fail(SCOPE_SIG, "after `with state.auto_fork(m)` the state does not have its previous auto_fork_type again"
+                 + (" (the block was left by an exception that the caller caught)" if v2["raised"] else ""),
+                 dict(graph=G.to_json(), ops=small, state=v2["state"]), expected=dict(auto_fork_type=v2["expected"]),
+                 observed=dict(auto_fork_type=v2["observed"]))
+    ref = T.run_ops(G, ops, fx=FX, oracle=False, scope="reference")
+    if ref.events != s.events:
+        def differs(c):
+            a = T.run_ops(G, c, fx=FX, oracle=False)
+            b = T.run_ops(G, c, fx=FX, oracle=False, scope="reference")
+            return first_result_difference(a, b) is not None
+        d = first_result_difference(s, ref)
+        if d is None:       # only the bookkeeping differs (reported above when it is the mode after a block)
+            run.count("oracle", "scoped: bookkeeping differs from the documented scoping, no result does")
+            if not s.scope_violations:
+                run.fail(SCOPE_DIFF_SIG, "a history with `with state.auto_fork(m)` blocks leaves auto_fork_type / _last_fork different from "
+                         "what the documented scoping (mode set for the body, previous mode put back afterwards) leaves",
+                         dict(graph=G.to_json(), ops=ops), expected="same bookkeeping", observed="see replay")
+            return
+        small = T.shrink(G, ops[: d["step"] + 1], differs) if len(ops) <= 60 else ops[: d["step"] + 1]
+        a = T.run_ops(G, small, fx=FX, oracle=False)
+        b = T.run_ops(G, small, fx=FX, oracle=False, scope="reference")
+        d2 = first_result_difference(a, b) or d
+        sig = SCOPE_DIFF_SIG
+        o_exp, o_obs = d2["expected"], d2["observed"]
+        if isinstance(o_exp, dict) and o_exp.get("op", [""])[0] in ("revert", "revmask"):
+            k = o_exp["op"][1]
+            if o_exp["out"][0] == "done" and o_obs["out"][0] == "err":
+                sig += ":revert-refused"
+            elif o_exp["out"][0] == "err" and o_obs["out"][0] == "done":
+                sig += ":revert-accepted"
+            # end the replay with a read whose value differs: the proposal that should have been reverted is still there (or vice versa)
+            for n in reversed(G.order):
+                a2 = T.run_ops(G, small + [["get", k, n]], fx=FX, oracle=False)
+                b2 = T.run_ops(G, small + [["get", k, n]], fx=FX, oracle=False, scope="reference")
+                if a2.events[-1][0] != b2.events[-1][0]:
+                    small = small + [["get", k, n]]
+                    d2 = dict(expected=dict(revert=o_exp["out"], then_read=dict(node=n, out=list(b2.events[-1][0][2]))),
+                              observed=dict(revert=o_obs["out"], then_read=dict(node=n, out=list(a2.events[-1][0][2]))))
+                    break
+        run.count("oracle", sig)
+        run.fail(sig, "after an exception left a `with state.auto_fork(m)` block (and was caught), the history no longer "
+                 "returns what it returns under the documented scoping of the mode switch: a later revert is refused / accepted "
+                 "differently and the values read afterwards are those of other independent values (the fork bookkeeping of the "
+                 "samplers' proposals is silently switched)",
+                 dict(graph=G.to_json(), ops=small), expected=d2["expected"], observed=d2["observed"])
+
+
+def first_result_difference(a, b):
+    """first event whose RESULT (not the bookkeeping) differs between two executions of the same history"""
+    for i, ((oa, _), (ob, _)) in enumerate(zip(a.events, b.events)):
+        if oa[0] == "out" and ob[0] == "out" and oa != ob:
+            return dict(event=i, step=a.event_steps[i], expected=dict(op=ob[1], out=list(ob[2])), observed=dict(op=oa[1], out=list(oa[2])))
+        if oa[0] != ob[0] or (oa[0] == "out" and oa[1] != ob[1]):
+            return dict(event=i, step=a.event_steps[i], expected=list(ob), observed=list(oa))
+    if len(a.events) != len(b.events):
+        i = min(len(a.events), len(b.events))
+        return dict(event=i, step=len(a.records) - 1, expected=f"{len(b.events)} events", observed=f"{len(a.events)} events")
+    return None
+
+
 def toy_histories(run: Run, n_hist):
     sessions, metas = [], []
     f1 = dict(histories_with_unforked_assignment_over_pending_fork=0, histories_with_revert_after_it=0,
               histories_with_read_after_that_revert=0, reads_after_that_revert=0, revert_outcomes={})
+    sc = new_sc()
     for h in range(n_hist):
         rng = run.rng("toy", h)
         malformed = rng.random() < 0.3
@@ -223,11 +427,12 @@ def toy_histories(run: Run, n_hist):
         run.count("graph_nodes", len(G.order))
         run.count("n_states", len(s.states))
         run.count("history_len", (len(ops) // 10) * 10)
-        for op, out, ok in s.records:
+        for op, out, ok in T.flat_records(s.records):
             run.count("op", op[0])
             run.count("result", out[0] if out[0] != "err" else "err:" + out[1])
             if not ok:
                 run.count("undisciplined_op", op[0])
+        scoped_oracle(run, G, s, sc)
         for nd in G.nodes:
             run.count("node_kind", nd["kind"] if nd["kind"] != "linked" else "linked:" + nd["fun"][0])
         classify(run, G, s)
@@ -236,6 +441,13 @@ def toy_histories(run: Run, n_hist):
     f1["note"] = ("legal since 27ac519: the revert must be refused with the input error 'no fork to revert from' (err:input) and every "
                   "later read must be fresh; before 27ac519 the revert succeeded (done) and restored a stale undo log")
     run.extra["f1_shaped_toy_histories"] = f1
+    sc["note"] = ("every block is executed through the real context manager `with state.auto_fork(m)`; the exception of the first failing "
+                  "operation of the body leaves the block(s) and is caught by the harness; auto_fork_type and _last_fork are recorded "
+                  "just inside and just after every block and compared with the model inside Coq")
+    run.extra["scoped_toy_histories"] = sc
+    if sc["reads_after_those_reverts"] < max(5, n_hist // 100) or sc["blocks_whose_previous_mode_is_not_REF"] < max(5, n_hist // 100):
+        run.broken("generator:scoped-shape", f"the toy-history generator produced too few scoped blocks left by an exception and followed by "
+                   f"a revert and reads: {sc}", kind="broken-correspondence")
     if FX == CLAIMED_FX and f1["histories_with_read_after_that_revert"] < max(5, n_hist // 100):
         run.broken("generator:f1-shape", f"the toy-history generator produced too few histories of the F1 shape: {f1}", kind="broken-correspondence")
     correspond(run, "toy", sessions, metas)
@@ -307,8 +519,11 @@ def exhaustive_diamond(run: Run, max_len):
     G.build()
     alphabet = [["get", 0, "d"], ["get", 0, "b"], ["set", 0, "a", [1, 2]], ["put", 0, "a", None, [3, -1], True],
                 ["put", 0, "a", 1, 2, True], ["revert", 0], ["revmask", 0, [True, False]], ["mode", 0, "REF"], ["mode", 0, None],
-                ["clone", 0, False, True], ["get", 1, "d"], ["set", 1, "a", [0, 5]], ["revert", 1], ["precompute", 0], ["set", 0, "a", None]]
+                ["clone", 0, False, True], ["get", 1, "d"], ["set", 1, "a", [0, 5]], ["revert", 1], ["precompute", 0], ["set", 0, "a", None],
+                ["scoped", 0, None, [["put", 0, "a", None, [1, 1], True], ["get", 0, T.UNKNOWN]]],
+                ["scoped", 0, "COPY", [["set", 0, "a", [4, 4]], ["set", 0, "d", [0, 0]]]], ["look", 0]]
     sessions, metas = [], []
+    sc = new_sc()
     for L in range(1, max_len + 1):
         for combo in itertools.product(range(len(alphabet)), repeat=L):
             ops = [alphabet[c] for c in combo]
@@ -320,6 +535,7 @@ def exhaustive_diamond(run: Run, max_len):
             metas.append(dict(stream="exhaustive-diamond", case=len(sessions)))
             run.case(("diamond", combo), nontrivial=T.nontrivial(ops))
             classify(run, G, s)
+            scoped_oracle(run, G, s, sc)
     run.extra["exhaustive_diamond"] = dict(alphabet=alphabet, max_len=max_len, histories=len(sessions))
     correspond(run, "diamond", sessions, metas)
 
@@ -329,6 +545,7 @@ def shipped_states(run: Run, kinds):
     import copy
     import torch
     from harness import synth
+    from leaspy.exceptions import LeaspyInputError
     from leaspy.variables.state import State, StateForkType
     from leaspy.variables.specs import IndividualLatentVariable, PopulationLatentVariable
     for kind, kw in kinds:
@@ -376,9 +593,72 @@ def shipped_states(run: Run, kinds):
         st.auto_fork_type = StateForkType.REF
         hist = []
         n_ok = 0
-        for step in range(14):
+        non_settable = [n for n in names if not dag[n].is_settable and st0.is_variable_set(n)]
+        from leaspy.models.time_reparametrized import TimeReparametrizedModel
+        callsite_ok = (isinstance(model, TimeReparametrizedModel)
+                       and type(model).put_individual_parameters is TimeReparametrizedModel.put_individual_parameters
+                       and {"xi", "tau"} <= set(ind_vars))
+
+        class _NoIndividuals:            # a dataset that makes the body of the block raise: n_individuals is required
+            n_individuals = None
+
+        def revert(subset=None, what=""):
+            """a sampler's decision after a proposal made with auto-fork on: must not be refused"""
+            try:
+                st.revert(subset) if subset is not None else st.revert()
+            except LeaspyInputError as e:
+                run.fail(SCOPE_DIFF_SIG + ":revert-refused:shipped", f"{kind}: the revert of a proposal made on a model state whose auto-fork is on "
+                         f"(as far as the caller can tell) is refused: {str(e)[:120]}",
+                         dict(kind=kind, options=kw, history=hist + [what]), expected="revert accepted (the proposal was forked)",
+                         observed=f"LeaspyInputError; auto_fork_type={st.auto_fork_type}")
+                return False
+            hist.append(what)
+            return True
+
+        def failed_block(how):
+            """an exception raised inside `with state.auto_fork(None)` and caught outside: through the context manager directly
+            (the body makes an un-forked assignment, then assigns a non-settable variable), or at the real call site
+            time_reparametrized.py:447 (`put_individual_parameters`: the body raises because n_individuals is None)"""
+            before = st.auto_fork_type
+            raised = False
+            try:
+                if how == "direct":
+                    with st.auto_fork(None):
+                        v = rng.choice(ind_vars)
+                        st.put(v, torch.full_like(st[v], 0.25), accumulate=True)
+                        n = rng.choice(non_settable)
+                        st[n] = st[n]
+                else:
+                    st["xi"] = None      # (forked) so that the call site enters its block
+                    model.put_individual_parameters(st, _NoIndividuals())
+            except LeaspyInputError:
+                raised = True
+            hist.append(f"exception inside `with auto_fork(None)` ({how}), caught")
+            run.count("shipped", f"exception inside a `with state.auto_fork(None)` block: {how}" + ("" if raised else " (did NOT raise)"))
+            if not raised:
+                run.broken("shipped-states-oracle:failed-block", f"{kind}: the block ({how}) was expected to raise LeaspyInputError", kind="broken-correspondence")
+            if st.auto_fork_type is not before:
+                run.fail(SCOPE_SIG + ":shipped", f"{kind}: after an exception left `with state.auto_fork(None)` ({how}) and was caught, the model state "
+                         "does not have its previous auto_fork_type again",
+                         dict(kind=kind, options=kw, history=list(hist)), expected=str(before), observed=str(st.auto_fork_type))
+            if how != "direct":
+                return revert(what="revert()  # xi back")
+            return True
+
+        alive = True
+        for step in range(16):
+            if step in (4, 10) and ind_vars and non_settable:
+                how = "direct" if (step == 4 or not callsite_ok) else "call site put_individual_parameters"
+                alive = failed_block(how)
+                run.case(("shipped", kind, json.dumps(kw, sort_keys=True), step, "failed-block"), nontrivial=True, validated=False)
+                if not alive or not compare(st, step, hist):
+                    break
+                # what a sampler does next: proposal, reads, decision
+                force = True
+            else:
+                force = False
             r = rng.random()
-            if r < 0.45 and ind_vars:
+            if (force or r < 0.45) and ind_vars:
                 v = rng.choice(ind_vars)
                 delta = torch.tensor([[rng.choice([-0.5, 0.25, 1.0])] * st[v].shape[1] for _ in range(st[v].shape[0])], dtype=st[v].dtype)
                 st.put(v, delta, accumulate=True)
@@ -386,10 +666,9 @@ def shipped_states(run: Run, kinds):
                 for n in rng.sample([m for m in names if m.endswith("_ind") or m in ("rt", "model", "nll_attach_ind")] or names, 2):
                     if n in dag:
                         st[n]
-                if rng.random() < 0.5:
+                if force or rng.random() < 0.5:
                     mask = torch.tensor([rng.random() < 0.5 for _ in range(st[v].shape[0])])
-                    st.revert(mask)
-                    hist.append(f"revert({[int(x) for x in mask.tolist()]})")
+                    alive = revert(mask, f"revert({[int(x) for x in mask.tolist()]})")
             elif r < 0.8 and pop_vars:
                 v = rng.choice(pop_vars)
                 cur = st[v]
@@ -398,8 +677,7 @@ def shipped_states(run: Run, kinds):
                 hist.append(f"put({v}, idx={idx})")
                 st[rng.choice(names)]
                 if rng.random() < 0.5:
-                    st.revert()
-                    hist.append("revert()")
+                    alive = revert(what="revert()")
             else:
                 n = rng.choice(names)
                 try:
@@ -408,7 +686,11 @@ def shipped_states(run: Run, kinds):
                     pass
                 hist.append(f"get({n})")
             run.case(("shipped", kind, json.dumps(kw, sort_keys=True), step), nontrivial=True, validated=False)
-            if not compare(st, step, hist):
+            if not alive or not compare(st, step, hist):
+                break
+            if st.auto_fork_type is not StateForkType.REF:
+                run.fail(SCOPE_SIG + ":shipped", f"{kind}: the model state is no longer in auto-fork mode REF after {hist[-1]}",
+                         dict(kind=kind, options=kw, history=list(hist)), expected="StateForkType.REF", observed=str(st.auto_fork_type))
                 break
             n_ok += 1
         run.count("shipped", f"{kind}{kw or ''}: {n_ok} operations checked on a {len(names)}-node graph")
@@ -490,13 +772,25 @@ def main(run: Run):
                 "put/read/revert steps, clones, mode switches, precompute) and a malformed stream (30%: unset reads, unknown names, "
                 "non-settable assignments, reverts without fork, bad indices); 3.5% of the steps taken while a fork is pending have the "
                 "shape of the former finding F1 (auto-fork off, assignment, reads, full or partial revert, reads; counted in "
-                "f1_shaped_toy_histories); every result + a final is_variable_set sweep over all "
+                "f1_shaped_toy_histories); 7% of the steps are `with auto_fork(m)` blocks run through the REAL context manager (m in None/REF/COPY, "
+                "bodies of 0-6 operations incl. nested blocks up to depth 3, clones, mode switches; 60% of the top-level bodies contain an operation "
+                "that raises — unknown name, non-settable assignment, read needing an unset variable, accumulating put on an unset variable, "
+                "revert without fork, index out of range — whose exception leaves the block(s) and is caught), usually entered with a fork "
+                "pending and followed by look / assignment / reads / full or per-individual revert / reads (counted in scoped_toy_histories); 54 "
+                "directed histories of that shape (previous mode x block mode x way to raise) + nested blocks on two states; auto_fork_type and "
+                "_last_fork are recorded at every look, just inside and just after every block; every result + a final is_variable_set sweep over all "
                 "nodes compared with the model inside Coq; from-scratch oracle after every operation. Non-trivial = the history has a "
                 "read after a second assignment to the same state, after a revert or after a clone; distinct by (graph, history).")
     run.explanation = ("The theorems quantify over all graphs/histories/value types of the model; the tie runs the model's own step "
                        "function inside Coq on the histories executed by the real State (results, error classes, cache contents and "
-                       "the discipline flags evaluated on the real _last_fork/_values must all agree); the oracle compares every read "
-                       "of the implementation with a fresh State holding the same independent values, bit for bit.")
+                       "the discipline flags evaluated on the real _last_fork/_values must all agree; for histories with scoped blocks the "
+                       "model's trace — executed operations, skipped ones absent, auto_fork_type and the full _last_fork at every look / block "
+                       "entry / block exit — must equal the recorded one entry by entry); the oracle compares every read "
+                       "of the implementation with a fresh State holding the same independent values, bit for bit, also after every "
+                       "operation inside a block; every history with blocks is re-executed with the documented scoping written out by the "
+                       "harness (set the mode; finally: put the previous one back) and must give the same events; on fitted shipped models an "
+                       "exception is raised inside `with state.auto_fork(None)` (directly, and at the real call site "
+                       "TimeReparametrizedModel.put_individual_parameters) and sampler-shaped put/read/revert steps follow.")
     run.assumptions += [
         "WF g: ancestors/children delivered by dag.py are the transitive closures in topological order — a THEOREM for every graph built by the "
         "modelled DAG constructor (C01_built_graph_wf, from C15_topological / C15_exact; the C01_*_built theorems carry no graph hypothesis); "
@@ -512,10 +806,13 @@ def main(run: Run):
         + ("recognised on the tree under test (source shape + probes)" if FX == CLAIMED_FX else
            "NOT the case on the tree under test — tie made against fx = false, the theorems do not apply"),
     ]
+    run.assumptions.append("a scoped block is `with state.auto_fork(m)` whose exception, if any, is caught by the caller (top level of the history); "
+                           "generator-based context managers and `with` are Python's (trusted); exceptions raised by __enter__/__exit__ themselves are not modelled")
     run.trusted += ["harness/props/state_toy.py: toy-graph builder, executor and canonicalisation of results (exact integers / inf / nan)",
                     "torch element-wise kernels, index_put, deepcopy (modelled, not verified)"]
     directed(run)
     directed_nonfinite(run)
+    directed_scoped(run)
     toy_histories(run, 6000 if thorough else 1500)
     if thorough:
         exhaustive_diamond(run, 3)
@@ -548,12 +845,33 @@ def replay(run: Run, path: str):
     bad = [m for m in s.mismatches if "mask" not in m["taint"]]
     for m in bad[:3]:
         print(f"STALE after step {m['step']}: state {m['state']} node {m['node']}: read {m['observed']} but a fresh state gives {m['expected']}")
-    r = run.vm_bad_indices("replay", HEADER, CASE_TYPE, [s.coq_case()], checker())
+    scope_bad = False
+    if is_scoped(s):
+        print("  trace (one entry per primitive event; 'seen' = auto_fork_type and _last_fork just inside / just after a block, or at a look):")
+        for obs, ok in s.events:
+            print("    ", list(obs)[0], json.dumps(list(obs)[1:], default=str))
+        for v in s.scope_violations:
+            scope_bad = True
+            print(f"SCOPE: after the block of step {v['step']} on state {v['state']} auto_fork_type is {v['observed']}, it was {v['expected']} before the block")
+        ref = T.run_ops(G, inp["ops"], fx=FX, oracle=False, scope="reference")
+        d = first_result_difference(s, ref)
+        if d is not None:
+            scope_bad = True
+            print(f"SCOPE: with the documented scoping (previous mode always put back) event {d['event']} is {d['expected']}, this tree gives {d['observed']}")
+        elif ref.events != s.events:
+            scope_bad = True
+            print("SCOPE: the bookkeeping (auto_fork_type / _last_fork) differs from the documented scoping")
+        r = run.vm_bad_indices("replay", SHEADER, SCASE_TYPE, [s.coq_scase()], schecker())
+    else:
+        r = run.vm_bad_indices("replay", HEADER, CASE_TYPE, [s.coq_case()], checker())
+    for a in s.alias_violations:
+        scope_bad = True
+        print(f"ALIAS: the clone made at step {a['step']} shares with its source: {a['shared']}")
     print(f"model (fx = {'true' if FX else 'false'}, {SEM[MIX]}) agrees with the implementation on this history:", r == [])
     if fx != CLAIMED_FX:
         print("the theorems of Props/C01.v are about fx = true: they do not speak about this tree")
     if mix != CLAIMED_MIX:
         print("the tie of Props/C01.v is made with xsem_where: this tree does not select in State.revert(subset)")
-    wrong = bool(bad or r or fx != CLAIMED_FX or mix != CLAIMED_MIX)
+    wrong = bool(bad or r or scope_bad or fx != CLAIMED_FX or mix != CLAIMED_MIX)
     print("REPLAY", "FAILS" if wrong else "passes")
     return 1 if wrong else 0
